@@ -41,6 +41,11 @@ def run(ctx: Ctx):
     from .common import axis_role_lint
 
     axis_role_lint(ctx, "axis-roles")
+    from .common import generic_lints
+
+    # a vector laid out along rows or columns by comparing its length with an extent of the block is right for one
+    # orientation and wrong for its mirror image whenever the block is square
+    generic_lints(ctx, kinds=("extent-guessed-orientation",), scope=lambda short, cls, member: short in ("matrix/measure.py", "matrix/subtotals.py", "matrix/cubemeasure.py", "cubepart.py"))
 
 
 def _swap_nf(nf: str) -> str:
